@@ -297,18 +297,24 @@ func (m *streeModel) ruleDescents(c *Ctx) {
 			if !ok {
 				return
 			}
-			var fas []*ssa.FieldAddr
-			for _, e := range ph.Edges {
+			fas := make([]*ssa.FieldAddr, len(ph.Edges))
+			nFa, iterative := 0, false
+			for i, e := range ph.Edges {
 				fa, ok := e.(*ssa.FieldAddr)
 				if !ok || fa.X != nodeVal {
+					// the link the walk starts from (a cell holding the root): not a descent
+					if _, isCell := e.(*ssa.Alloc); isCell {
+						continue
+					}
 					return
 				}
 				if _, f := fieldVarOf(fa); !sameField(f, m.leftF) && !sameField(f, m.rightF) {
 					return
 				}
-				fas = append(fas, fa)
+				fas[i] = fa
+				nFa++
 			}
-			if len(fas) != len(ph.Edges) || len(fas) == 0 {
+			if nFa == 0 {
 				return
 			}
 			used := false
@@ -319,6 +325,15 @@ func (m *streeModel) ruleDescents(c *Ctx) {
 						used = true
 					}
 				case *ssa.UnOp:
+					// an iterative walk: the node reached through the link is the next node compared
+					if ssa.Value(x) == nodeVal {
+						used, iterative = true, true
+					}
+					for _, r2 := range referrersOf(x) {
+						if p2, ok := r2.(*ssa.Phi); ok && ssa.Value(p2) == nodeVal {
+							used, iterative = true, true
+						}
+					}
 					for _, r2 := range referrersOf(x) {
 						if call, ok := r2.(*ssa.Call); ok {
 							if cal := staticCallee(&call.Call); cal != nil && origin(cal) == origin(host) {
@@ -331,7 +346,11 @@ func (m *streeModel) ruleDescents(c *Ctx) {
 			if !used {
 				return
 			}
+			_ = iterative
 			for i, fa := range fas {
+				if fa == nil {
+					continue
+				}
 				pred := ph.Block().Preds[i]
 				extraCmps = nil
 				if iff, ok := pred.Instrs[len(pred.Instrs)-1].(*ssa.If); ok {
@@ -561,6 +580,8 @@ func runC01(c *Ctx) {
 	m.ruleLinkEdits(c)
 	m.ruleReadOnly(c)
 	m.ruleTreeAccessors(c)
+	m.ruleExtremeLeaf(c)
+	ruleFractionRange(c)
 	var yf []*ssa.Function
 	ruleSizeGuard(c, "stree")
 	for _, t := range [][2]string{{"node", "inorder"}, {"node", "inorderAfter"}, {"Tree", "Inorder"}, {"Tree", "InorderAfter"}} {
@@ -816,7 +837,18 @@ func runC03(c *Ctx) {
 		{"Cursor", "findPrev", "small,large"}, {"Cursor", "Prev", "large"},
 		{"Tree", "Min", "small"}, {"Tree", "Max", "large"},
 	})
-	ruleYield(c, []*ssa.Function{P.Func("stree", "Cursor", "Inorder")})
+	{
+		// Cursor.Inorder and everything it hands the callback on to (the node walker)
+		var yfs []*ssa.Function
+		if ci := P.Func("stree", "Cursor", "Inorder"); ci != nil {
+			for _, f := range buildCallScope(ci).fns {
+				if len(yieldSites(f)) > 0 {
+					yfs = append(yfs, f)
+				}
+			}
+		}
+		ruleYield(c, yfs)
+	}
 	m.ruleSiblingAgree(c)
 	m.ruleSubtreeWalk(c)
 }
@@ -1199,8 +1231,13 @@ func (m *streeModel) ruleSizePair(c *Ctx) {
 		found := false
 		for _, f := range buildCallScope(fn).fns {
 			allInstrs(f, func(in ssa.Instruction) {
-				if al, ok := in.(*ssa.Alloc); ok && al.Heap && isNamedOrigin(al.Type(), m.nodeT) {
-					found = true
+				if al, ok := in.(*ssa.Alloc); ok && al.Heap {
+					// a node itself, not a cell holding a pointer to one (a local whose address is taken)
+					if pt, ok := al.Type().Underlying().(*types.Pointer); ok {
+						if nt, ok := types.Unalias(pt.Elem()).(*types.Named); ok && nt.Origin() == m.nodeT.Origin() {
+							found = true
+						}
+					}
 				}
 			})
 		}
@@ -1621,6 +1658,12 @@ func (m *streeModel) ruleSiblingAgree(c *Ctx) {
 		b, okB := tests(mv, pr[2])
 		key := "stree.(*Cursor)." + pr[0] + "~" + pr[1]
 		if !okA || !okB {
+			// the predicate asks the finder of the opposite direction: a definite fault, not a lost anchor
+			other := map[string]string{"findNext": "findPrev", "findPrev": "findNext"}[pr[2]]
+			if _, usesOther := tests(has, other); !okA && okB && usesOther {
+				c.bad("R-SIBLING-AGREE", key, has.Pos(), fmt.Sprintf("%s consults %s while %s moves by %s: the predicate answers the question for the opposite direction (wrong at both ends of the tree)", pr[0], other, pr[1], pr[2]))
+				continue
+			}
 			c.undecided("R-SIBLING-AGREE", key, has.Pos(), "predicate and move do not both consult "+pr[2])
 			continue
 		}
@@ -2293,6 +2336,14 @@ func (m *streeModel) ruleTreeAccessors(c *Ctx) {
 					if _, f := loadedField(call.Call.Args[1]); f != nil && isNamedOrigin(call.Call.Args[1].(*ssa.UnOp).X.(*ssa.FieldAddr).X.Type(), m.treeT) {
 						c.sawFn(fnName(fn))
 						c.judge(sameField(f, sizeF), "R-COUNT-FIELD", fnName(fn)+":rebuild counted by the count field", call.Pos(), "rewrite(root, count)", fmt.Sprintf("the whole tree is rebuilt with .%s as its node count, but the number of nodes is .%s: the rebuild walks off the end of the vine or leaves a tail unbalanced", f.Name(), sizeF.Name()))
+					} else if bo, ok := call.Call.Args[1].(*ssa.BinOp); ok && isLoadOfField(call.Call.Args[0], m.rootF) {
+						// the whole tree rebuilt with the count field ± a constant: one node too many or too few
+						if _, f := loadedField(bo.X); f != nil && sameField(f, sizeF) {
+							if k, isK := constInt(bo.Y); isK && k != 0 && (bo.Op == token.ADD || bo.Op == token.SUB) {
+								c.sawFn(fnName(fn))
+								c.bad("R-COUNT-FIELD", fnName(fn)+":rebuild counted by the count field", call.Pos(), fmt.Sprintf("the whole tree is rebuilt with %s as its node count, but it has exactly .%s nodes: the rebuild walks off the end of the vine (a nil dereference for some sizes) or leaves a tail unbalanced", ksym(bo), sizeF.Name()))
+							}
+						}
 					}
 				})
 			}
